@@ -750,7 +750,12 @@ func c14PlacementCases(m c14Method, full bool) []c14Case {
 		}
 		out = append(out, c14Case{Method: m.Name, Kind: "placement", Resps: clone(base)})
 		for ri := range base {
-			respStatuses := []int{404, 403, 500, -1, 207, 199}
+			respStatuses := []int{404, 403, 500, -1, 207, 199, 507, 401, 409, 412, 302, 100, 599}
+			if full {
+				for st := 101; st < 599; st += 7 {
+					respStatuses = append(respStatuses, st)
+				}
+			}
 			for k := 2; k <= len(c14BadStatus); k++ {
 				respStatuses = append(respStatuses, -k)
 			}
@@ -793,7 +798,7 @@ func c14PlacementCases(m c14Method, full bool) []c14Case {
 				continue
 			}
 			for pi, p := range base[ri].Props {
-				propStatuses := []int{404, 403, 500}
+				propStatuses := []int{404, 403, 500, 507, 401, 424, 302}
 				if pi == 0 || full {
 					for k := 1; k <= len(c14BadStatus); k++ {
 						propStatuses = append(propStatuses, -k)
@@ -839,7 +844,7 @@ func init() {
 			cases = append(cases, c14HTTPCases(m, full)...)
 			cases = append(cases, c14PlacementCases(m, full)...)
 		}
-		r.Rule = fmt.Sprintf("%d public client methods of the three packages x {status codes (quick: 21 boundary codes; thorough: every code 100..599) x 7 content types x {valid body, empty, DAV:error with 0/1/2 conditions}, the valid body truncated at every offset (success and 404), every single element deletion/duplication/rename of the valid multistatus, 2 MiB of text, 2 MiB of nested/wide XML}; plus every single placement of a non-success status inside a multistatus: per response {404,403,500,empty status,207,199} and per property {404,403,500} for 1..3 responses (thorough: pairs of property deviations); non-trivial = every case", len(methods))
+		r.Rule = fmt.Sprintf("%d public client methods of the three packages x {status codes (quick: 21 boundary codes; thorough: every code 100..599) x 7 content types x {valid body, empty, DAV:error with 0/1/2 conditions}, the valid body truncated at every offset (success and 404), every single element deletion/duplication/rename of the valid multistatus, 2 MiB of text, 2 MiB of nested/wide XML}; plus every single placement of a non-success status inside a multistatus: per response {404,403,500,507,401,409,412,302,100,599,empty status,207,199; thorough: every 7th code 101..598} and per property {404,403,500,507,401,424,302} for 1..3 responses (thorough: pairs of property deviations); non-trivial = every case", len(methods))
 		r.Explanation = "each call runs against a scripted HTTPClient under recover() and a 60 s watchdog; non-2xx => errors.As(*HTTPError) with the status (and the DAV:error condition elements); 2xx-not-207 and uninterpretable bodies (by the independent parser) => error; valid => nil; a resource or required property under a non-success status => error (SyncCollection: 404 => Deleted), an optional property under 404 => zero value"
 		r.Assumptions = []string{"the error type for '2xx but not 207' is not judged", "nesting depth of the oversized XML is 20000 levels (deeper documents risk exhausting the checker's own stack)"}
 		r.Extra["methods"] = len(methods)
